@@ -159,10 +159,15 @@ BlockLengthMuts == Flat(MapL(Levels, BlockLenAt))
 (* 2. values: <<label, lexeme>> just outside / at the edge of the type *)
 IntBreaks(p) == << <<"max+1", B!IncStr(B!MaxMag(p))>>,
                    <<"min-1", IF B!IsSigned(p) THEN "-" \o B!IncStr(B!MinMag(p)) ELSE "-1">>,
-                   <<"huge", "99999999999999999999999">> >>
+                   <<"huge", "99999999999999999999999">>,
+                   \* not a decimal integer lexeme at all
+                   <<"letters", "abc">>, <<"fraction", "1.5">>, <<"hex", "0x10">>, <<"exponent", "1e3">> >>
 IntBounds(p) == << <<"max", B!MaxStr(p)>>, <<"min", B!MinStr(p)>> >>
-FloatBreaks(p) == IF p = "float" THEN << <<"overflow", "1e39">>, <<"neg-overflow", "-3.5e38">> >>
-                  ELSE << <<"overflow", "1e309">>, <<"neg-overflow", "-1.8e308">> >>
+\* lexemes outside  [-]digits[.digits][(e|E)[+|-]digits] | NaN | INF | -INF  (the XML Schema forms)
+FloatGarbage == << <<"letters", "abc">>, <<"lowercase-nan", "nan">>, <<"signed-nan", "-NaN">>, <<"hex", "0x1p3">>,
+                   <<"two-points", "1.5.2">>, <<"lowercase-inf", "inf">>, <<"suffix", "1.5f">>, <<"comma", "1,5">> >>
+FloatBreaks(p) == (IF p = "float" THEN << <<"overflow", "1e39">>, <<"neg-overflow", "-3.5e38">> >>
+                   ELSE << <<"overflow", "1e309">>, <<"neg-overflow", "-1.8e308">> >>) \o FloatGarbage
 FloatBounds(p) == IF p = "float"
                   THEN << <<"max", "3.4028234e38">>, <<"min", "-3.4028234e38">>, <<"nan", "NaN">>, <<"inf", "-INF">> >>
                   ELSE << <<"max", "1.7976931348623157e308">>, <<"min", "-1.7976931348623157E+308">>,
